@@ -59,6 +59,37 @@ func applyFault(w *hz.World, rc *hz.RConn, f string, dwell time.Duration) (time.
 		in.Close()
 		return w.Now(), true
 	}
+	if f == "collide-oc" {
+		// a full collision: both connections reach OpenConfirm, the remote (higher
+		// identifier) is dominant so its own connection, corebgp's inbound one, is kept and
+		// corebgp's outbound connection is ceased; the remote then drops the surviving
+		// connection before it is Established
+		if !rc.WaitMsgs(1, 10*time.Second) {
+			return 0, false
+		}
+		in := w.Connect(rc.PeerIP)
+		if !in.WaitMsgs(1, 10*time.Second) {
+			return 0, false
+		}
+		rc.SendOpen(rc.StdOpen(remoteAS, 90, remoteIDu))
+		if !rc.WaitMsgs(2, 10*time.Second) {
+			return 0, false
+		}
+		in.SendOpen(in.StdOpen(remoteAS, 90, remoteIDu))
+		if !in.WaitMsgs(2, 10*time.Second) || !rc.WaitEOF(10*time.Second) {
+			return 0, false
+		}
+		time.Sleep(dwell)
+		switch dwell % 3 {
+		case 0:
+			in.Close()
+		case 1:
+			in.Reset()
+		default:
+			in.SendNotification(6, 7, nil)
+		}
+		return w.Now(), true
+	}
 	st := faultState(f)
 	if !rc.WaitMsgs(1, 10*time.Second) {
 		return 0, false
@@ -99,7 +130,7 @@ func c11World(t *testing.T, p c11Params) rt.Result {
 		if p.Passive {
 			mon := w.MustAddPeer(ps)
 			for i, f := range p.Faults {
-				if f == "refuse" || f == "stall" || f == "collide" {
+				if f == "refuse" || f == "stall" || f == "collide" || f == "collide-oc" {
 					time.Sleep(idle) // nothing to do for a passive peer
 					continue
 				}
@@ -352,7 +383,7 @@ func c11InboundEnd(t *testing.T, how, next string, seed uint64, hook int) rt.Res
 func TestC11(t *testing.T) {
 	c := rt.Get()
 	var alpha []string
-	alpha = append(alpha, "refuse", "stall", "collide")
+	alpha = append(alpha, "refuse", "stall", "collide", "collide-oc")
 	for _, k := range []string{"close", "reset", "cease"} {
 		for _, s := range allStates {
 			alpha = append(alpha, k+"@"+s)
